@@ -81,7 +81,12 @@ func (ix *idxEngine) fieldLowerBound(f *types.Var) (int64, bool) {
 	ok := true
 	for _, fs := range ix.c.StoresTo(f) {
 		p := ix.proverFor(fs.Fn)
-		good, _ := p.prove(leq(linConst(0), p.linOf(fs.St.Val), "field >= 0"), fs.St, nil, 0)
+		goal := leq(linConst(0), p.linOf(fs.St.Val), "field >= 0")
+		good, _ := p.prove(goal, fs.St, nil, 0)
+		if !good {
+			// the stored value may be a parameter of an internal helper: require it of the callers
+			good, _ = ix.liftGoal(fs.Fn, goal, fs.St, 0)
+		}
 		if !good {
 			ok = false
 			break
